@@ -41,6 +41,7 @@ from ..core import (AnalysisError, call_name, const_str, find_calls, is_name,
                     walk)
 from ..normalize import expand_locals
 from ..lib_C14 import (COPIER, CORE, EXPORT, FB, WRITER, Mini, Model, USet,
+                       dewalrus, inline_module_helpers,
                        Unknown, Unordered, base_names, cfg_ids,
                        classes_in, edge_guarded, enclosing_conditions,
                        fact_guard, fold, method, single_assign, stmt_of)
@@ -86,7 +87,7 @@ def dict_get(e, var, key):
 
 # ----------------------------------------------------------------------
 def r71(ctx, repo):
-    gi = repo.func(CORE, "RTDCBase.__getitem__")
+    gi = dewalrus(repo.func(CORE, "RTDCBase.__getitem__"))
     feat = gi.args.args[1].arg
     stages = []        # (token, node)
     type_seq = []      # ("one", basin_type expr) | ("many", iterable expr)
@@ -604,8 +605,20 @@ def r72(ctx, repo):
 
 
 # ----------------------------------------------------------------------
+def export_func(repo):
+    """Export.hdf5 with module-level helpers inlined and walrus removed"""
+    if getattr(repo, "_c07_export", None) is None:
+        repo._c07_export = dewalrus(inline_module_helpers(
+            repo, EXPORT, repo.func(EXPORT, "Export.hdf5")))
+    return repo._c07_export
+
+
+def _expr(text):
+    return ast.parse(text, mode="eval").body
+
+
 def r73(ctx, repo):
-    ex = repo.func(EXPORT, "Export.hdf5")
+    ex = export_func(repo)
     loops = [n for n in walk(ex) if isinstance(n, ast.For) and isinstance(
         n.target, ast.Name) and find_calls(n, attr="store_basin")]
     if len(loops) != 1:
@@ -701,10 +714,36 @@ def r73(ctx, repo):
                f"{[txt(n.value) for n in ex_] or 'left unchanged'}, expected "
                f"{what}", node=ex_[0] if ex_ else lp,
                label=f"composition [{case}]")
-    # the definitions appended for the exported dataset itself
-    lits = [c for c in walk(ex) if isinstance(c, ast.Call) and last_attr(
-        c) == "append" and is_name(c.func.value, blist) and c.args
-        and isinstance(c.args[0], ast.Dict)]
+    # the definitions appended for the exported dataset itself (literal
+    # dictionaries, possibly bound to a name and completed by item
+    # assignments before they are appended)
+    lits = []
+    for c in walk(ex):
+        if not (isinstance(c, ast.Call) and last_attr(c) == "append"
+                and isinstance(c.func, ast.Attribute)
+                and is_name(c.func.value, blist) and len(c.args) == 1):
+            continue
+        a0, extra = c.args[0], {}
+        if isinstance(a0, ast.Name):
+            dv = single_assign(ex, a0.id)
+            for n in walk(ex):
+                if isinstance(n, ast.Assign) and len(
+                        n.targets) == 1 and isinstance(
+                        n.targets[0], ast.Subscript) and is_name(
+                        n.targets[0].value, a0.id):
+                    k = const_str(n.targets[0].slice)
+                    if k is None or n.lineno > c.lineno:
+                        raise AnalysisError(
+                            f"Export.hdf5: cannot follow how `{a0.id}` is "
+                            f"completed")
+                    extra[k] = n.value
+            a0 = dv
+        if isinstance(a0, ast.Dict):
+            c.defn = (a0, extra)
+            lits.append(c)
+        else:
+            raise AnalysisError(f"Export.hdf5: `{short(c, 50)}` appends a "
+                                f"definition that cannot be resolved")
     kinds = {}
     for c in lits:
         conds = enclosing_conditions(c, ex)
@@ -716,27 +755,32 @@ def r73(ctx, repo):
                             "dataset not recognised")
 
     def entry(d, key):
+        if isinstance(d, tuple):
+            d, extra = d
+            if key in extra:
+                return extra[key]
         for k, v in zip(d.keys, d.values):
             if const_str(k) == key:
                 return v
         return None
-    d = kinds["direct"][0].args[0]
+    d = kinds["direct"][0].defn
     ok = entry(d, "basin_map") is None
     ctx.ob("R7.3", ok, "the basin pointing at the exported dataset uses the "
            "identity mapping before filtering" if ok else
            "the basin pointing at the exported dataset carries a map",
-           node=d, label="direct basin has no map")
-    h = kinds["hierarchy"][0].args[0]
-    root = [n.targets[0].id for n in walk(ex) if isinstance(n, ast.Assign)
-            and isinstance(n.targets[0], ast.Name) and isinstance(
-                n.value, ast.Call)
-            and last_attr(n.value) == "get_root_parent"]
+           node=d[0], label="direct basin has no map")
+    h = kinds["hierarchy"][0].defn
     dsn = [n.targets[0].id for n in walk(ex) if isinstance(n, ast.Assign)
            and isinstance(n.targets[0], ast.Name)
            and is_self_attr(n.value, "rtdc_ds")]
-    if len(set(root)) != 1 or len(set(dsn)) != 1:
-        raise AnalysisError("Export.hdf5: ds / root bindings lost")
-    root, dsn = root[0], dsn[0]
+    if len(set(dsn)) != 1:
+        raise AnalysisError("Export.hdf5: dataset binding lost")
+    dsn = dsn[0]
+    DS = expand_locals(ex, _expr(dsn))
+    ROOT = expand_locals(ex, _expr(f"{dsn}.get_root_parent()"))
+
+    def X(e):
+        return expand_locals(ex, e)
 
     def is_root_map(v):
         while isinstance(v, ast.Name):
@@ -754,28 +798,35 @@ def r73(ctx, repo):
            "maps every child event to its root index" if ok else
            f"the basin of a hierarchy child has map `{short(bm, 50)}`, "
            f"expected map_indices_child2root(child={dsn}, "
-           f"child_indices=np.arange(len({dsn})))", node=bm or h,
+           f"child_indices=np.arange(len({dsn})))", node=bm or h[0],
            label="hierarchy basin has root map")
-    locs_h = [n.value for n in walk(ex) if isinstance(n, ast.Assign)
-              and is_name(n.targets[0], txt(entry(h, "basin_locs")))
-              and any(x is n for x in ast.walk(stmt_of_if(kinds["hierarchy"][0])))]
-    ok = txt(entry(h, "basin_format")) == f"{root}.format" and bool(
-        locs_h) and all(f"{root}.path" in txt(v) for v in locs_h)
+
+    def loc_lists(kind):
+        le = entry(kinds[kind][0].defn, "basin_locs")
+        if isinstance(le, (ast.List, ast.Tuple)):
+            return [le]
+        if not isinstance(le, ast.Name):
+            raise AnalysisError("Export.hdf5: basin_locs of the "
+                                f"{kind} definition not recognised")
+        branch = stmt_of_if(kinds[kind][0])
+        inside = {id(x) for x in ast.walk(ast.Module(
+            body=branch.body if kind == "direct" else [branch],
+            type_ignores=[]))}
+        return [n.value for n in walk(ex) if isinstance(n, ast.Assign)
+                and is_name(n.targets[0], le.id) and id(n) in inside]
+    locs_h = loc_lists("hierarchy")
+    ok = X(entry(h, "basin_format")) == f"{ROOT}.format" and bool(
+        locs_h) and all(f"{ROOT}.path" in X(v) for v in locs_h)
     ctx.ob("R7.3", ok, "the hierarchy basin points at the root dataset"
            if ok else "the hierarchy basin does not point at the root "
-           "dataset (location / format)", node=h,
+           "dataset (location / format)", node=h[0],
            label="hierarchy basin points at root")
-    locs_d = [n.value for n in walk(ex) if isinstance(n, ast.Assign)
-              and is_name(n.targets[0], txt(entry(d, "basin_locs")))
-              and any(x is n for x in ast.walk(stmt_of_if(kinds["direct"][0])))
-              and not any(x is n for x in ast.walk(ast.Module(
-                  body=stmt_of_if(kinds["direct"][0]).orelse,
-                  type_ignores=[])))]
-    ok = txt(entry(d, "basin_format")) == f"{dsn}.format" and bool(
-        locs_d) and all(f"{dsn}.path" in txt(v) for v in locs_d)
+    locs_d = loc_lists("direct")
+    ok = X(entry(d, "basin_format")) == f"{DS}.format" and bool(
+        locs_d) and all(f"{DS}.path" in X(v) for v in locs_d)
     ctx.ob("R7.3", ok, "the direct basin points at the exported dataset"
            if ok else "the direct basin does not point at the exported "
-           "dataset (location / format)", node=d,
+           "dataset (location / format)", node=d[0],
            label="direct basin points at dataset")
     # upstream basins of a hierarchy child are the root's basins
     hb = None
@@ -972,10 +1023,28 @@ def r73_writer(ctx, repo):
     if not defs:
         raise AnalysisError("store_basin: mapping name never assigned")
     def_ids = {i for d in defs for i in g.ids_of(d)}
+    alts = []
     for d in defs:
         v = d.value
-        lab = f"mapping name {short(d, 50)}"
-        conds = enclosing_conditions(d, sb)
+        tgt = [t for t in d.targets if any(
+            is_name(tt, V) for tt in (t.elts if isinstance(
+                t, ast.Tuple) else [t]))][0]
+
+        def pick(val):
+            """the part of `val` that is bound to the mapping name"""
+            if isinstance(tgt, ast.Tuple) and isinstance(
+                    val, ast.Tuple) and len(val.elts) == len(tgt.elts):
+                return val.elts[[is_name(x, V) for x in tgt.elts].index(
+                    True)]
+            return val
+        if isinstance(v, ast.IfExp):
+            alts.append((d, pick(v.body), [(v.test, True)], " [if]"))
+            alts.append((d, pick(v.orelse), [(v.test, False)], " [else]"))
+        else:
+            alts.append((d, pick(v), [], ""))
+    for d, v, extra_conds, suffix in alts:
+        lab = f"mapping name {short(d, 50)}{suffix}"
+        conds = enclosing_conditions(d, sb) + extra_conds
         if isinstance(v, ast.Constant) and v.value == "same":
             ok = any((txt(t) == f"{MAPN} is not None" and not pol) or (
                 txt(t) == f"{MAPN} is None" and pol) for t, pol in conds)
@@ -1021,6 +1090,7 @@ CREATORS = {"create_dataset": ("name", 0), "create_group": ("name", 0),
 
 def r74(ctx, repo):
     for q, f in repo.all_functions(COPIER):
+        f = dewalrus(f)
         for c in [n for n in walk(f) if isinstance(n, ast.Call)]:
             la = last_attr(c)
             if la == "h5ds_copy" or call_name(c) == "h5ds_copy":
@@ -1111,7 +1181,7 @@ def r75(ctx, repo):
            "relative to the referrer: moving referrer and origin together "
            "loses the basin", node=rel[0] if rel else br,
            label="relative lookup")
-    ex = repo.func(EXPORT, "Export.hdf5")
+    ex = export_func(repo)
     n_loc = 0
     for st in walk(ex):
         if isinstance(st, ast.Assign) and isinstance(
@@ -1666,7 +1736,85 @@ MUTANTS = [
      "R7.6"),
 ]
 
+def _twin_origin_helper(src):
+    """the two literal definitions built by one module-level helper"""
+    a = src.index('                    basin_is_local = ds.format == "hdf5"\n')
+    b = src.index('                elif (ds.format == "hierarchy"\n')
+    src = src[:a] + (
+        '                    basin_list.append(origin_basin_kwargs(\n'
+        '                        ds_origin=ds,\n'
+        '                        basin_name="Exported data",\n'
+        '                        basin_descr=f"Exported with dclab {version}",\n'
+        '                    ))\n') + src[b:]
+    a = src.index('                    ds_root = ds.get_root_parent()\n')
+    b = src.index('                for bn_dict in basin_list:\n'
+                  '                    if bn_dict.get("basin_type")')
+    src = src[:a] + (
+        '                    bn_root = origin_basin_kwargs(\n'
+        '                        ds_origin=ds.get_root_parent(),\n'
+        '                        basin_name="Exported data (hierarchy)",\n'
+        '                        basin_descr=f"Exported with dclab {version} "\n'
+        '                                    f"from a hierarchy dataset",\n'
+        '                    )\n'
+        '                    bn_root["basin_map"] = map_indices_child2root(\n'
+        '                        child=ds,\n'
+        '                        child_indices=np.arange(len(ds))\n'
+        '                        )\n'
+        '                    basin_list.append(bn_root)\n\n') + src[b:]
+    return src.replace(
+        'def store_filtered_feature(rtdc_writer, feat, data, filtarr):',
+        'def origin_basin_kwargs(ds_origin, basin_name, basin_descr):\n'
+        '    basin_is_local = ds_origin.format == "hdf5"\n'
+        '    basin_locs = [ds_origin.path]\n'
+        '    if basin_is_local:\n'
+        '        basin_locs.append(ds_origin.path.name)\n'
+        '    return {\n'
+        '        "basin_name": basin_name,\n'
+        '        "basin_type": "file" if basin_is_local else "remote",\n'
+        '        "basin_format": ds_origin.format,\n'
+        '        "basin_locs": basin_locs,\n'
+        '        "basin_descr": basin_descr,\n'
+        '    }\n\n\n'
+        'def store_filtered_feature(rtdc_writer, feat, data, filtarr):', 1)
+
+
 TWINS = [
+    ("definitions of the exported dataset built by a helper", EXPORT,
+     _twin_origin_helper),
+    ("basin_map tuple expanded by a conditional expression", WRITER,
+     ("        if isinstance(basin_map, (list, tuple)) and len(basin_map) == 2:\n"
+      "            basin_map_name, basin_map = basin_map\n"
+      "        else:\n"
+      "            basin_map_name = None\n",
+      "        basin_map_name, basin_map = (\n"
+      "            basin_map\n"
+      "            if isinstance(basin_map, (list, tuple)) and len(basin_map) == 2\n"
+      "            else (None, basin_map))\n")),
+    ("lookup with assignment expressions", CORE,
+     [("        elif feat in self._usertemp:\n",
+       "        if feat in self._usertemp:\n"),
+      ("        data = self._get_ancillary_feature_data(feat, no_compute=True)\n"
+       "        if data is not None:\n",
+       "        if (data := self._get_ancillary_feature_data(\n"
+       "                feat, no_compute=True)) is not None:\n"),
+      ("            data = self._get_basin_feature_data(feat, basin_type=basin_type)\n"
+       "            if data is not None:\n",
+       "            if (data := self._get_basin_feature_data(\n"
+       "                    feat, basin_type=basin_type)) is not None:\n"),
+      ("        data = self._get_ancillary_feature_data(feat)\n"
+       "        if data is not None:\n",
+       "        if (data := self._get_ancillary_feature_data(feat)) "
+       "is not None:\n")]),
+    ("rewritten definition keyed through an assignment expression", COPIER,
+     [("            if len(feat_used) == 0:\n",
+       "            if not feat_used:\n"),
+      ("            b_lines = json.dumps(bn, indent=2).split(\"\\n\")\n"
+       "            key = hashobj(b_lines)\n"
+       "            if key not in dst_h5file[\"basins\"]:\n",
+       "            bn_json = json.dumps(bn, indent=2)\n"
+       "            b_lines = bn_json.split(\"\\n\")\n"
+       "            if (key := hashobj(b_lines)) not in dst_h5file[\"basins\"]:\n")]),
+
     ("lookup as separate ifs", CORE,
      ("        elif feat in self._usertemp:\n",
       "        if feat in self._usertemp:\n")),
